@@ -118,7 +118,6 @@ def check_required(run, fx, rs):
                    "failing side is a TypeError")
     sites = [
         ("date::PlainDate::with", "is_empty", "::date_from_partial"),
-        ("date::PlainDate::from_partial", "$partial.day", "::date_from_partial"),
         ("time::PlainTime::with", "is_empty", "IsoTime::with"),
         ("time::PlainTime::from_partial", "is_empty", "IsoTime::with"),
         ("datetime::PlainDateTime::with", "is_empty", "::date_from_partial"),
@@ -128,6 +127,7 @@ def check_required(run, fx, rs):
     for path, guard, kernel in sites:
         check_guarded_call(run, fx, rs.fn(T + path), guard, kernel, rule, path.split("::", 1)[1], kind="Type",
                            guard_pass=False)
+    check_from_partial_required(run, fx, rs, rule)
     # the deeper required-field checks of the calendar resolution
     ev = H.Evaluator(fx)
     rd = rs.fn1("types::resolve_day")
@@ -144,6 +144,69 @@ def check_required(run, fx, rs):
         r = ev2.call_fn(ey, [part])
         run.check(is_err(r) and err_kind(r) == "Type", rule, "era_year/absent", "missing year -> TypeError",
                   "a record without year and era gives %s, expected a TypeError" % show(r)[:80], ey.loc)
+
+
+def check_from_partial_required(run, fx, rs, rule):
+    """PlainDate::from_partial, by value: folded on records in which one required group (year | era + eraYear; month |
+    monthCode; day) is absent it returns a TypeError without reaching the calendar; on a complete record it reaches the
+    calendar's date_from_partial.  However the test is written (`!a || !b || c.is_none()`, `!(a && b && c.is_some())`,
+    `matches!` on a tuple, a helper)."""
+    f = rs.fn(T + "date::PlainDate::from_partial")
+    adt = rs.adts.get(T + "date::PartialDate")
+    if f is None or adt is None or len(f.params) != 2:
+        run.anchor_missing(rule, "date::PlainDate::from_partial", "PlainDate::from_partial / PartialDate not found")
+        return
+    names = [fl["name"] for fl in adt["variants"][0]["fields"]]
+    need = {"year", "month", "month_code", "day", "era", "era_year", "calendar"}
+    if not need <= set(names):
+        run.anchor_missing(rule, "date::PlainDate::from_partial", "PartialDate no longer has the fields %s" % sorted(need - set(names)))
+        return
+
+    def record(absent):
+        fs = []
+        for nm in names:
+            if nm == "calendar":
+                fs.append((nm, H.Sym("param", ("calendar",))))
+            elif nm in absent:
+                fs.append((nm, H.NONE_V))
+            elif nm in need:
+                fs.append((nm, H.V(H.SOME, (H.Sym("param", (nm,)),))))
+            else:
+                fs.append((nm, H.Sym("param", (nm,))))
+        return H.S(T + "date::PartialDate", tuple(fs))
+
+    cases = [("complete", (), "kernel"),
+             ("year-only", ("era", "era_year"), "kernel"),
+             ("era-and-era-year-only", ("year",), "kernel"),
+             ("month-only", ("month_code",), "kernel"),
+             ("month-code-only", ("month",), "kernel"),
+             ("no-day", ("day",), "Type"),
+             ("no-month", ("month", "month_code"), "Type"),
+             ("no-year-no-era", ("year", "era"), "Type"),
+             ("no-year-no-era-year", ("year", "era_year"), "Type"),
+             ("nothing", ("year", "era", "era_year", "month", "month_code", "day"), "Type")]
+    for key, absent, want in cases:
+        ev = H.Evaluator(fx)
+        ev.inline = lambda p: not p.endswith("::date_from_partial")
+        try:
+            r = ev.call_fn(f, [record(absent), H.Sym("param", ("overflow",))])
+        except (H.Panic, H.Budget) as e:
+            run.ok(rule, "date::PlainDate::from_partial/" + key, "not foldable (%s): not decided" % e, f.loc, nontrivial=False)
+            continue
+        reached = any(str(c.parts[0]).endswith("::date_from_partial") for c in ev.trace)
+        if is_err(r):
+            got = err_kind(r)
+        elif reached and not ev.lossy and isinstance(r, H.Sym) and r.what in ("call", "try"):
+            got = "kernel"
+        else:
+            run.ok(rule, "date::PlainDate::from_partial/" + key, "folds to `%s`: not decided" % show(r)[:60], f.loc, nontrivial=False)
+            continue
+        if is_err(r) and reached:
+            got = "kernel-then-" + got
+        run.check(got == want, rule, "date::PlainDate::from_partial/" + key,
+                  "record %s -> %s" % (key, "the calendar's date_from_partial" if want == "kernel" else "TypeError"),
+                  "PlainDate::from_partial on a record with %s absent gives %s, expected %s" %
+                  (list(absent) or "nothing", got, "the calendar resolution" if want == "kernel" else "a TypeError before it"), f.loc)
 
 
 def check_clamps(run, fx, rs):
